@@ -3,6 +3,7 @@ CONSTANTS MaxDepth = 4
           MaxLen = 50
           Vals <- MCVals
           Limits <- LimitsSim
+          MaxClose = 2
           SimLen = 50
           SimLimits <- LimitsSim
 INVARIANTS SimInv
